@@ -12,6 +12,7 @@ FUNCTIONS = [
     "autobahn.websocket.protocol: _url_to_origin / _is_same_origin / _parseExtensionsHeader; autobahn.util: wildcards2patterns (via REX)",
     "autobahn.websocket.util: parse_url / create_url (concrete URLs)",
     "autobahn.twisted.websocket: adapter connectionMade / dataReceived / _closeConnection",
+    "autobahn.asyncio.websocket: adapter connection_made / data_received / _consume / _closeConnection (aio/ units)",
 ]
 STUBS = ["hashlib.sha1 -> uninterpreted function of its input octets (the harness checks WHAT is hashed: key + GUID); base64 modelled exactly",
          "os.urandom (client nonce) -> fixed octets; transport -> recording object; reactor -> twisted Clock; loggers -> empty bodies (their arguments are still evaluated)"]
@@ -20,9 +21,9 @@ ASSUMPTIONS = [
     "origin allow-list: wildcard strings from a menu, their compiled patterns (read from the real wildcards2patterns) compared as regular languages with whole-string glob semantics over printable ASCII",
     "proxy CONNECT, web-status/redirect rendering (hyperlink), urllib.parse internals on symbolic text, and arbitrary long garbage are outside the symbolic claim",
 ]
-BOUNDS = {"quick": "server: free key (24 chars), free version (2 digits), 5 single-character token corruptions (free latin-1 octet each: method, HTTP version, Upgrade, Connection, Host port under externalPort) + 2 free octets around the header terminator, 5 headers x {absent, once, twice} x webStatus, every 5-event connection history x maxConnections in {1,2}, 6 wildcard lists x 9 origins + REX inclusion, connection limit, subprotocol menus; client: free status (3 digits), free accept (28 chars), 4 token corruptions, non-UTF-8 octets, foreign subprotocol; request construction for 8 URLs; self-interoperation over 12 option combinations; every 1-cut segmentation of the handshake for the concrete skeletons",
+BOUNDS = {"quick": "server: free key (24 chars), free version (2 digits), 5 single-character token corruptions (free latin-1 octet each: method, HTTP version, Upgrade, Connection, Host port under externalPort) + 2 free octets around the header terminator, 5 headers x {absent, once, twice} x webStatus, every 5-event connection history x maxConnections in {1,2}, 6 wildcard lists x 9 origins + REX inclusion, connection limit, subprotocol menus; client: free status (3 digits), free accept (28 chars), 4 token corruptions, non-UTF-8 octets, foreign subprotocol; request construction for 8 URLs; self-interoperation over 6 option combinations x 3 segmentations; asyncio adapter: 6 units (free version/status digits, free token octet, free header-value octet) x 3 segmentations; every 1-cut segmentation of the handshake for the concrete skeletons",
           "thorough": "7-event connection histories, 7 segmentations per interop combination"}
-EXPECT_COVERS = ["srv:open", "srv:http-error", "srv:incomplete", "cli:open", "cli:failed", "origin:rex", "interop"]
+EXPECT_COVERS = ["aio", "srv:open", "srv:http-error", "srv:incomplete", "cli:open", "cli:failed", "origin:rex", "interop"]
 BUDGET = {"quick": dict(wall_s=300, max_paths=30000, diff_samples=3), "thorough": dict(wall_s=2400)}
 
 GUID = b"258EAFA5-E914-47DA-95CA-C5AB0DC85B11"
@@ -526,6 +527,59 @@ def client_request(sx, ui):
     return [url]
 
 
+def aio_handshake(sx, server, which):
+    """the asyncio adapter (data_received -> receive queue -> loop callback): same admission decisions, and nothing reaches the
+    event loop's exception handler"""
+    loop = wslib.setup_asyncio()
+    wslib.patch_env_aio(sx)
+    _real_sha1()
+    trace = Trace()
+    who = "S" if server else "C"
+    ep, f = wslib.make_endpoint_aio(sx, who, server, trace, loop)
+    ep.p.connection_made(ep.t)
+    wslib.run_loop(loop)
+    ep.t.take()
+    from symx.core import mkstr
+    c = sx.int("octet", 0, 255)
+    if server:
+        if which == "version":
+            v = sx.str("version", 2, 48, 57)
+            data = _enc(_req(version=v))
+            valid = sx.Or(sx.And(v.items[0] == 49, v.items[1] == 51), sx.And(v.items[0] == 48, v.items[1] == 56)) if sx.is_sym(v) else v in ("13", "08")
+        elif which == "upgrade":
+            data = _enc(_req(upgrade=mkstr([c] + [ord(x) for x in "ebsocket"])))
+            valid = sx.Or(c == ord("w"), c == ord("W"))
+        else:
+            data = _enc(_req(extra=mkstr([ord(x) for x in "X-Info: "] + [c] + [13, 10])))
+            valid = None
+    else:
+        if which == "status":
+            st = sx.str("status", 3, 48, 57)
+            data = _enc(_resp(status=st, accept=ACCEPT))
+            valid = st == "101"
+        elif which == "upgrade":
+            data = _enc(_resp(accept=ACCEPT, upgrade=mkstr([c] + [ord(x) for x in "ebsocket"])))
+            valid = sx.Or(c == ord("w"), c == ord("W"))
+        else:
+            data = _enc(_resp(accept=ACCEPT, extra=mkstr([ord(x) for x in "X-Info: "] + [c] + [13, 10])))
+            valid = None
+    cut = sx.choice("cut", 3)
+    info = dict(server=server, which=which)
+    try:
+        wslib.deliver_aio(ep, loop, data, ((), (1,), (len(data) - 2,))[cut])
+    except Exception as e:  # noqa
+        sx.fail("exception-escapes-data_received", info=dict(info, exc=repr(e)))
+        return ["exc"]
+    sx.check(len(loop.verif_errors) == 0, "aio:no-exception-reaches-the-event-loop", info=dict(info, errors=loop.verif_errors[:2]))
+    opened = len(trace.of(who, "open")) > 0 and ep.p.state == ep.p.STATE_OPEN
+    if valid is not None:
+        sx.check(sx.Iff(opened, valid), "aio:opens-iff-valid", info=info)
+    if not opened:
+        sx.check(ep.t.closed is not None or ep.p.state == ep.p.STATE_CONNECTING, "aio:refused=>dropped", info=info)
+    sx.cover("aio")
+    return [opened]
+
+
 def interop(sx, combo, cut):
     """the library's own client and server complete the handshake with each other under option combinations and segmentations"""
     version, protos_c, protos_s, headers = combo
@@ -574,6 +628,9 @@ def units(tier):
         U.append(("cli/corrupt/" + w, "client_corrupt", dict(which=w), dict(weight=2)))
     for i in range(len(URLS)):
         U.append(("cli/request/%d" % i, "client_request", dict(ui=i)))
+    for server in (True, False):
+        for w in (("version" if server else "status"), "upgrade", "octet"):
+            U.append(("aio/%s/%s" % ("S" if server else "C", w), "aio_handshake", dict(server=server, which=w), dict(weight=5, framework="asyncio")))
     combos = [(18, [], [], False), (10, [], [], False), (18, ["a"], ["a"], False), (18, ["a", "b"], ["b"], True), (18, ["a"], [], False), (12, ["x", "y"], ["y", "x"], True)]
     for k, combo in enumerate(combos):
         for cut in ((1, 40, 10 ** 6) if tier == "quick" else (1, 2, 10, 40, 100, 180, 10 ** 6)):
